@@ -4,5 +4,5 @@ KindsMC == {"valid", "valid2", "renamed_param", "module_removed", "function_remo
             "return_class_removed", "yield_class_removed", "class_module_removed", "local_scope", "now_nonfunction",
             "now_class", "now_settable_property", "class_now_nontype", "class_now_nontype_ret",
             "class_module_removed_ret", "arg_class_removed_2", "nowraps", "now_closure", "prop_getter_nonfunction",
-            "ret_unexported_builtin", "moved_function", "td_field_class_removed"}
+            "ret_unexported_builtin", "moved_function", "td_field_class_removed", "alias_of_removed", "now_proxy"}
 =============================================================================
